@@ -370,12 +370,29 @@ def has_mod_let(items, inside=False):
     return False
 
 
-def cls_pub_use_private(tree, d):
-    """class of F9: some `pub use` (anywhere) re-exports a name equal to the private member's name whose use path ends
-    in it, or exports under the private member's own qualified name"""
+def cls_pub_use_private(tree, ppath, info, d):
+    """class of F9: some `pub use` exports a name equal to the private member's own qualified name, or the reference is a
+    qualified path that spells (absolutely, or relative to the probe's module) the name exported by some `pub use` and
+    following the re-exports from there ends at the private member d"""
+    ds = decls(tree)
+    fnpaths = {x['mod'] + (x['name'],) for x in ds if x['kind'] == 'fn'}
+    exports = {}
     for (upath, base, names) in pub_uses(tree):
         for n in names:
-            if n == d['name']:
+            exports[tuple(upath) + (n,)] = (tuple(upath), tuple(base) + (n,))
+    dpath = d['mod'] + (d['name'],)
+    if dpath in exports:
+        return True          # `pub use` exporting under the private member's own name: its visibility entry is overwritten
+    if info['kind'] != 'qual':
+        return False
+    segs = tuple(info['ref'])
+    for k in (segs, tuple(ppath) + segs):
+        seen = set()
+        while k in exports and k not in seen:
+            seen.add(k)
+            upath, t = exports[k]
+            k = t if (t in fnpaths or t in exports) else (upath + t if (upath + t in fnpaths or upath + t in exports) else t)
+            if k == dpath:
                 return True
     return False
 
@@ -392,7 +409,7 @@ def oracle(tree, ppath, info, as_let, c):
     d = hit[0]
     outside = d['mod'] != () and not is_prefix(d['mod'], ppath)
     if d['kind'] == 'fn' and not d['pub'] and outside:
-        if cls_pub_use_private(tree, d):
+        if cls_pub_use_private(tree, ppath, info, d):
             return ('F9', f"private {'::'.join(d['mod'] + (d['name'],))} from {'::'.join(ppath) or '<top>'}")
         if as_let and has_mod_let(tree):
             return ('F17b', f"private {'::'.join(d['mod'] + (d['name'],))} from a `let` initialiser at {'::'.join(ppath) or '<top>'}")
@@ -506,12 +523,16 @@ def run(ck):
     cases = []   # (tree_without_probe, ppath, idx, body, info, as_let, program)
     corpus = os.path.join(VERIF, "corpus", "C17", "cases.jsonl")
     n_corpus = 0
+    witnesses = []   # (name, model tokens, mimium source, expected value)
     if os.path.exists(corpus):
         for l in open(corpus):
             l = l.strip()
             if not l or l.startswith("#"):
                 continue
             o = json.loads(l)
+            if "witness" in o:
+                witnesses.append((o["witness"], o["tokens"], o["source"], o["expect"]))
+                continue
             tree = [to_tuple(x) for x in o["tree"]]
             body = to_tuple(o["body"])
             prog = build_case(tree, tuple(o["ppath"]), o["idx"], body, o.get("as_let", False))
@@ -524,7 +545,7 @@ def run(ck):
             body = to_tuple(o["body"])
             prog = build_case(tree, tuple(o["ppath"]), o["idx"], body, o.get("as_let", False))
             cases.append((tree, tuple(o["ppath"]), o["idx"], body, o["info"], o.get("as_let", False), prog))
-    n_trees = 60 if ck.tier == "quick" else 600
+    n_trees = 300 if ck.tier == "quick" else 3000
     refs_per_pos = 5 if ck.tier == "quick" else 8
     rng = ck.rng.fork("trees")
     n_weird = 0
@@ -537,15 +558,15 @@ def run(ck):
                 as_let = (not ppath) and rng.chance(1, 6) and info['wrap'] == 'plain'
                 prog = build_case(tree, ppath, idx, body, as_let)
                 cases.append((tree, ppath, idx, body, info, as_let, prog))
-    model_in = "\n".join(tok_items(c[6]) for c in cases) + "\n"
-    impl_in = "#builtins\n" + "\n".join(src_items(c[6]).replace("\n", "\\n") for c in cases) + "\n"
+    model_in = "\n".join([w[1] for w in witnesses] + [tok_items(c[6]) for c in cases]) + "\n"
+    impl_in = "#builtins\n" + "\n".join([w[2].replace("\n", "\\n") for w in witnesses] + [src_items(c[6]).replace("\n", "\\n") for c in cases]) + "\n"
 
     def runexe(exe, text):
         p = subprocess.run([exe], input=text, stdout=subprocess.PIPE, stderr=subprocess.DEVNULL, text=True, timeout=3000,
                            cwd=os.path.join(CACHE))
         return p.returncode, p.stdout.split("\n")
     rc_i, out_i = runexe(exe_i, impl_in)
-    if rc_i != 0 or len(out_i) < len(cases) + 1:
+    if rc_i != 0 or len(out_i) < len(cases) + len(witnesses) + 1:
         ck.violation("implementation harness crashed", {"rc": rc_i, "answered": len(out_i), "cases": len(cases)}, no_input=True)
         return finish(ck)
     builtins = set(out_i[0].split())
@@ -559,6 +580,19 @@ def run(ck):
         rc_m, out_m = runexe(exe_m, model_in)
     else:
         rc_m, out_m = 1, []
+    # ---- witnesses of the refuted theorems / fixtures: literal programs, replayed on the real compiler and on the model ----
+    nw = len(witnesses)
+    wit_bad = []
+    for j, (name, toks, src, expect) in enumerate(witnesses):
+        bi = parse_b(out_i[j].split(" | ")[-1]) if " | " in out_i[j] else {'bad': out_i[j]}
+        got = bits_to_float(bi['ok']) if 'ok' in bi else ("private-error" if bi.get('p', 0) > 0 else "error")
+        if got != expect:
+            wit_bad.append((name, src, expect, out_i[j]))
+        elif model_ok and rc_m == 0 and j < len(out_m) and compare(out_m[j], out_i[j]):
+            wit_bad.append((name + " (model differs: %s)" % compare(out_m[j], out_i[j]), src, out_m[j], out_i[j]))
+    out_i = out_i[nw:]
+    out_m = out_m[nw:]
+    ck.coverage["witness_programs_replayed"] = nw
 
     findings = {f["id"]: f for f in known_findings("C17")}
     disagreements, prop_fail = [], []
@@ -617,6 +651,10 @@ def run(ck):
 
     for (i, verdict, detail) in prop_fail[:5]:
         ck.violation("property fails on the implementation: " + verdict, replay_obj(i, {"detail": detail}))
+    for (name, src, expect, got) in wit_bad[:3]:
+        ck.broken.append("witness " + name)
+        ck.violation("witness/fixture program '%s' no longer behaves as recorded (the theorem of that name in Props/C17.v is about the model, "
+                     "the model no longer describes the code)" % name, {"source": src, "expected": expect, "implementation": got}, no_input=True)
     if disagreements and not prop_fail:
         i, why, m_, i_ = disagreements[0]
         ck.broken.append("correspondence Modules.Model vs program.rs/convert_qualified_names.rs: " + why)
